@@ -65,6 +65,27 @@ CLAIMS = {
         "context.go / client.go functions #guarded; random derivation trees with external mutation vs the model; wire bytes "
         "and end-to-end sessions (handler-side TagsFromContext) compared.",
    note="context.WithValue immutability is the context package's contract."),
+ "C06": dict(technique="Lean 4 proof (compression plumbing over an abstract law-abiding compressor) + real-compressor law run + wire/session runs",
+   text="Theorems (Props/C06.lean), for EVERY compressor satisfying the two stated laws and every compression type: the frame a "
+        "client writes for a compressed call decodes on the server to exactly the argument the caller supplied — the same as "
+        "the uncompressed call (compressed_call_transparent); an unknown type is treated as none on both ends (unknown_is_none); "
+        "the payload is the compressed msgpack encoding and decompresses to it (payload_roundtrip); a reply compressed with the "
+        "request's type and decompressed with the type remembered by the pending call yields the handler's result and error "
+        "(compressed_reply_transparent). PARTIAL: DEFLATE / msgpackzip themselves, sync.Pool reuse and 'gzip corruption yields an "
+        "error' are assumptions, validated on the real compressors: round trips, non-empty output, every single-bit flip of "
+        "small payloads, decompression right after a failed one, 16-way concurrent pool reuse; plus byte-exact wire comparison "
+        "of compressed calls/replies (payload decompressed and compared with the model's encoding) and end-to-end sessions.",
+   note="The compressors and sync.Pool are not modelled; their laws are hypotheses of the theorems."),
+ "C17": dict(technique="Lean 4 proof (Dial's decision logic over the assumed crypto/tls contract) + exhaustive 60-case run against a scripted tls.Server",
+   text="Theorems (Props/C17.lean): without a user configuration the configuration handed to tls.Client has no "
+        "InsecureSkipVerify, the dialed host as server name and the PEM's roots (system roots when none), so a completed dial "
+        "implies chain, name and validity (library_config_verifies); a supplied configuration is used verbatim; every failing "
+        "path (bad issuer / name / expiry, close, timeout) creates no transport; a stalled handshake fails at exactly the "
+        "configured timeout (one minute by default). PARTIAL: certificate validation and the handshake are crypto/tls's (contract "
+        "`verify`). Tie: Dial's statements, its select arms and the absence of InsecureSkipVerify in the package are "
+        "#guarded; the full product constructor x certificate x server behaviour (60 cases) runs through the real Dial under "
+        "virtual time, incl. a caller mutating its config after construction.",
+   note="crypto/tls and crypto/x509 are trusted through the `verify` contract."),
 }
 
 PENDING = ("the Lean obligations of this property (transport / connection model) are still being discharged in this round; "
